@@ -2,6 +2,7 @@
 """Run checks against the seeded changes kept under /verif/seeded/<name>/.
 
 usage: tools/seeded.py [name ...] [--all-checks] [--tier quick|thorough] [--seeds 1,2,3]
+(with --seeds other than 1 the outcome is stored under "<tier>-seeds" with the list of seeds at which the own check fired)
 
 For every seeded change: verify /repo is clean, `git -C /repo apply patch.diff`, run the check
 of the property it breaks (or all checks with --all-checks), record exit codes and the
@@ -91,7 +92,12 @@ def main():
         prev = {}
         if os.path.exists(f"{d}/result.json"):
             prev = json.load(open(f"{d}/result.json"))
-        prev[tier + ("-all" if all_checks else "")] = out
+        if len(seeds) > 1 or seeds != [1]:
+            # robustness over seeds: at which seeds did the own check fire?
+            out["caught_at_seeds"] = [r["seed"] for r in res.get(meta["property"], []) if r["exit"] == 1]
+            prev[tier + "-seeds"] = out
+        else:
+            prev[tier + ("-all" if all_checks else "")] = out
         json.dump(prev, open(f"{d}/result.json", "w"), indent=1)
         print(name, meta["property"], "caught by", out["caught_by"] or "NOTHING")
     # restore evidence of the unchanged tree for the checks we disturbed is the caller's job
